@@ -319,20 +319,22 @@ func runC08Conc(rc *RunCtx) *simkit.Violation {
 		}
 		var ops []op
 		for i := 0; i < nOps; i++ {
-			switch t.Pick(0, 0, 1, 1, 2) {
+			switch t.Pick(0, 0, 1, 1, 2, 3) {
 			case 0:
 				ops = append(ops, op{"set", ids[next%len(ids)]})
 				next++
 			case 1:
 				ops = append(ops, op{"get", ""})
+			case 3:
+				ops = append(ops, op{"list", ""})
 			default:
 				ops = append(ops, op{"del", ""})
 			}
 		}
 		w.Note("c%d: %v", c, ops)
-		recs := make([]rec, len(ops))
+		var recs []rec
 		tasks = append(tasks, w.Go(cl, "ops", func() (interface{}, error) {
-			for i, o := range ops {
+			for _, o := range ops {
 				r := rec{client: c, in: refmodel.RegOp{Kind: o.kind, Value: o.val}}
 				r.call = int64(2*w.SeqNow() + 1)
 				switch o.kind {
@@ -354,12 +356,31 @@ func runC08Conc(rc *RunCtx) *simkit.Violation {
 				case "del":
 					err := core.DeleteLabel("r1", st, "shared")
 					r.out.OK = err == nil
+				case "list":
+					// a listing that succeeds while the label is being set / deleted is a read of the label: it shows it
+					// bound to a bundle it was assigned, or does not show it (a listing that fails tells nothing)
+					ls, err := core.ListLabels("r1", st, core.BatchSize(1024))
+					if err != nil {
+						continue
+					}
+					r.in.Kind = "get"
+					for _, l := range ls {
+						if l.Name != "shared" {
+							continue
+						}
+						if l.BundleID == "" {
+							w.Fail(Viol(prop, "label-wrong-target", "ListLabels-concurrent", "shared", "a listing concurrent with set/delete of label %q shows it bound to no bundle (%+v)", l.Name, l))
+							return nil, nil
+						}
+						r.out.Value = l.BundleID
+					}
+					w.Probe("concurrent-listing")
 				}
 				r.ret = int64(2 * w.SeqNow())
 				if r.ret <= r.call {
 					r.ret = r.call + 1
 				}
-				recs[i] = r
+				recs = append(recs, r)
 			}
 			return recs, nil
 		}))
